@@ -383,6 +383,7 @@ def isolation(chk, rule: str, rels=None):
                         f"that relies on the default shares it, so what one of them registers or stores shows up in all the others")
     chk.ok(rule, f"{'package' if rels is None else ', '.join(sorted(rels))} | no mutable default argument kept or mutated", "canopen/", f"scanned {n_def} functions")
     logging_inert(chk, rule, rels)
+    none_is_not_zero(chk, rule, rels)
     tdef = ast.parse("class S:\n    def __init__(self, callbacks=[]):\n        self.callbacks = callbacks\n").body[0].body[0]
     chk.fixture(rule, "mutable default stored on the instance", _mutable_default_escape(tdef) is not None)
     t = ast.parse("class S:\n    _buffer = bytearray()\n    def f(self, d):\n        b = self._buffer\n        b[:] = d\n")
@@ -840,3 +841,109 @@ def pdo_collection_lookup(chk, rule: str):
         ok = any(src(lp.iter) in ("self.map.values()", "list(self.map.values())", "tuple(self.map.values())") for lp in loops)
         chk.check(ok, rule, f"{PB}:PdoBase.__getitem__ | `{src(n)}` looks into a map of the current search", f.loc(n),
                   f"`{n.value.id}` is not bound by a loop over self.map.values() here: the answer comes from somewhere else than the maps in their current order and configuration")
+
+
+_ARITH = (ast.Add, ast.Sub, ast.Mult, ast.Div, ast.FloorDiv, ast.Mod, ast.LShift, ast.RShift, ast.BitAnd, ast.BitOr, ast.BitXor, ast.Pow)
+_NUMERIC_MAKERS = {"int", "float", "len", "bytearray", "bytes", "time.time", "time.monotonic", "round", "abs", "min", "max", "sum"}
+_REF_CACHE = {}
+
+
+def _reference_funcs(rel):
+    import json, os
+    if "ref" not in _REF_CACHE:
+        pth = os.path.join(os.path.dirname(os.path.dirname(os.path.abspath(__file__))), "reference.json")
+        try:
+            _REF_CACHE["ref"] = json.load(open(pth))
+        except (OSError, ValueError):
+            _REF_CACHE["ref"] = {}
+    return _REF_CACHE["ref"].get(rel, {}).get("funcs", {})
+
+
+def _truth_operands(test):
+    if isinstance(test, ast.UnaryOp) and isinstance(test.op, ast.Not):
+        return _truth_operands(test.operand)
+    if isinstance(test, ast.BoolOp):
+        return [o for v in test.values for o in _truth_operands(v)]
+    if isinstance(test, (ast.Name, ast.Attribute)):
+        return [test]
+    return []
+
+
+def _tested_by_truth(fn_node):
+    """[(operand node, holder node)] for every name / attribute whose truth value decides something in fn_node: tests of if / while /
+    conditional expressions / assert, and the non-final operands of `a or b` / `a and b` used as values."""
+    out = []
+    for n in ast.walk(fn_node):
+        if isinstance(n, (ast.If, ast.While, ast.IfExp, ast.Assert)):
+            out += [(o, n.test) for o in _truth_operands(n.test)]
+        elif isinstance(n, ast.BoolOp):
+            for v in n.values[:-1]:
+                out += [(o, n) for o in _truth_operands(v)]
+        elif isinstance(n, ast.comprehension):
+            for c in n.ifs:
+                out += [(o, c) for o in _truth_operands(c)]
+    return out
+
+
+def none_is_not_zero(chk, rule: str, rels=None):
+    """A quantity that may be None *and* may legally be 0 / 0.0 / empty (a number, a time stamp, a byte string) must be tested with
+    `is None`: a truth-value test takes the legal 0 for "absent".  Reported only where the current tree introduces such a test (the
+    pinned tree's function does not test that name by truth value): names that are None-able (parameter default None, assigned
+    None in the function / class) and for which the code itself shows numeric or byte-string use (annotation, arithmetic, ordered
+    comparison, int()/len()/bytearray() construction)."""
+    repo, folder = ctx(chk)
+    n_fn = 0
+    for m in repo.modules.values():
+        if rels is not None and m.rel not in rels:
+            continue
+        ref = _reference_funcs(m.rel)
+        for f in list(m.funcs.values()) + [mm for cc in m.classes.values() for mm in cc.methods.values()]:
+            n_fn += 1
+            a = f.node.args
+            pos = a.posonlyargs + a.args
+            pd = list(zip(pos[len(pos) - len(a.defaults):], a.defaults)) + [(p_, d_) for p_, d_ in zip(a.kwonlyargs, a.kw_defaults) if d_ is not None]
+            noneable = {p_.arg for p_, d_ in pd if isinstance(d_, ast.Constant) and d_.value is None}
+            numeric = {p_.arg for p_ in pos + a.kwonlyargs if p_.annotation is not None and any(t in ast.unparse(p_.annotation) for t in ("int", "float", "bytes", "bytearray"))
+                       and not any(t in ast.unparse(p_.annotation) for t in ("Callable", "List", "Dict", "Iterable[", "Sequence["))}
+            scope_nodes = [f.node] if f.cls is None else [mm.node for mm in f.cls.methods.values()]
+            for sn in scope_nodes:
+                for n in ast.walk(sn):
+                    if isinstance(n, ast.Assign):
+                        for t in n.targets:
+                            if not (isinstance(t, ast.Attribute) and dotted(t.value) == "self") and not (isinstance(t, ast.Name) and sn is f.node):
+                                continue
+                            if isinstance(n.value, ast.Constant) and n.value.value is None:
+                                noneable.add(src(t))
+                            v = n.value
+                            if (isinstance(v, ast.Constant) and isinstance(v.value, (int, float, bytes)) and not isinstance(v.value, bool)) or \
+                                    (isinstance(v, ast.BinOp) and isinstance(v.op, _ARITH) and not isinstance(v.left, (ast.Constant, ast.JoinedStr)) ) or \
+                                    (isinstance(v, ast.Call) and (dotted(v.func) or "") in _NUMERIC_MAKERS):
+                                numeric.add(src(t))
+                    elif isinstance(n, ast.AugAssign) and isinstance(n.op, _ARITH):
+                        numeric.add(src(n.target))
+                    elif isinstance(n, ast.BinOp) and isinstance(n.op, _ARITH) and not (isinstance(n.left, ast.Constant) and isinstance(n.left.value, str)):
+                        for o in (n.left, n.right):
+                            if isinstance(o, (ast.Name, ast.Attribute)) and (isinstance(o, ast.Attribute) or sn is f.node):
+                                numeric.add(src(o))
+                    elif isinstance(n, ast.Compare) and any(isinstance(o, (ast.Lt, ast.LtE, ast.Gt, ast.GtE)) for o in n.ops):
+                        for o in [n.left] + n.comparators:
+                            if isinstance(o, (ast.Name, ast.Attribute)) and (isinstance(o, ast.Attribute) or sn is f.node):
+                                numeric.add(src(o))
+            cand = noneable & numeric
+            if not cand:
+                continue
+            rf = ref.get(f.qualname)
+            old = set()
+            if rf is not None:
+                try:
+                    old = {src(o) for o, _h in _tested_by_truth(ast.parse(rf.get("src", "")))}
+                except SyntaxError:
+                    old = set()
+            for o, holder in _tested_by_truth(f.node):
+                nm = src(o)
+                if nm in cand and nm not in old:
+                    chk.bad(rule, f"{f.key} | `{nm}` may be None and may be 0: tested with `is None`", f.loc(holder),
+                            f"`{src(holder)[:70]}` decides by the truth value of {nm}, which is None when absent but can also be a legal 0 / 0.0 / empty value "
+                            f"(numeric or byte-string use elsewhere in the {'class' if f.cls is not None else 'function'}): the legal zero is handled as if nothing had been given")
+                    break
+    chk.ok(rule, f"{'package' if rels is None else ', '.join(sorted(rels))} | no new truth-value test of a None-able number", "canopen/", f"scanned {n_fn} functions")
